@@ -290,6 +290,14 @@ class P2PConnection:
                 return
             self._ack_waiter.set_result(telegram.tpci)
             return
+        if not isinstance(telegram.tpci, TDataConnected):
+            # only numbered data frames belong to the connection
+            logger.warning(
+                "Received unexpected point-to-point telegram for %s: %s",
+                self.address,
+                telegram,
+            )
+            return
         if self._response_waiter.done():
             logger.warning(
                 "Received unexpected point-to-point telegram for %s: %s",
